@@ -89,11 +89,7 @@ class TwoEndedLink(link.Link):
         all is well.  Except the access to a private method... but it seems the
         least bad option, IMO.
         """
-        v2 = self.v2
-        self.unlink_from(self.v1)
-        self._vertices = []
-        self.add_vertex(new)
-        self._vertices.append(v2)
+        self._set_end(0, new)
 
     @property
     def v2(self) -> Vertex:
@@ -119,10 +115,24 @@ class TwoEndedLink(link.Link):
         For a brief on why this exists, see
         :py:meth:`~edgegraph.structure.TwoEndedLink._set_v1`.
         """
-        v1 = self.v1
-        self.unlink_from(self.v2)
-        self._vertices = [v1]
-        self.add_vertex(new)
+        self._set_end(1, new)
+
+    def _set_end(self, idx: int, new: Vertex):
+        """
+        Helper method to replace one end (``idx`` 0 or 1) of this edge, keeping
+        the link-vertex association consistent on the old and the new vertex.
+
+        The previous vertex is only detached when it is no longer an end of
+        this edge (it may be both ends of a self-loop).
+        """
+        # reading both ends first raises IndexError on an edge that has lost an
+        # end, before anything is modified
+        old = (self.v1, self.v2)[idx]
+        self._vertices[idx] = new
+        if (old is not None) and (old not in self._vertices):
+            old.remove_from_link(self)
+        if (new is not None) and (self not in new.links):
+            new.add_to_link(self)
 
     def other(self, end: Vertex) -> Vertex | None:
         """
